@@ -667,7 +667,20 @@ private:
             log_event(StructuredLogger::Level::Info,
                       "control.connection.accepted",
                       {{"remote", remote_address}});
-            handle_client(client, remote_address);
+            try {
+                handle_client(client, remote_address);
+            } catch (const std::exception& ex) {
+                // One misbehaving request must not take the accept thread (and the daemon) down.
+                log_event(StructuredLogger::Level::Error,
+                          "control.connection.failed",
+                          {{"remote", remote_address},
+                           {"error", ex.what()}});
+            } catch (...) {
+                log_event(StructuredLogger::Level::Error,
+                          "control.connection.failed",
+                          {{"remote", remote_address},
+                           {"error", "unknown"}});
+            }
             close_socket(client);
         }
     }
